@@ -1731,6 +1731,32 @@ pub fn apply(disk: &mut Disk, s: &Surgery) -> Result<(), String> {
             disk.tables.insert(tag_from_str("gvar"), Rc::new(nv));
             Ok(())
         }
+        Surgery::PostFormat { v25, variant } => {
+            let n = usize::from(num_glyphs(disk)?);
+            let post = disk.tables.get(&tag_from_str("post")).ok_or("surgery: no post")?.clone();
+            if post.len() < 32 {
+                return Err("surgery: short post".into());
+            }
+            let mut t = post[..32].to_vec();
+            if *v25 {
+                if n > 385 {
+                    return Err("surgery: too many glyphs for post 2.5".into());
+                }
+                t[0..4].copy_from_slice(&0x0002_5000u32.to_be_bytes());
+                t.extend_from_slice(&(n as u16).to_be_bytes());
+                for g in 0..n {
+                    // glyph g is named by standard name g + offset, which has to be in 0..=257
+                    let want = ((*variant as usize).wrapping_mul(31).wrapping_add(g * 7)) % 258;
+                    let off = (want as i32 - g as i32).clamp(-128, 127);
+                    let off = if (0..=257).contains(&(g as i32 + off)) { off } else { 0i32.max(-(g as i32)).min(257 - g as i32).clamp(-128, 127) };
+                    t.push(off as i8 as u8);
+                }
+            } else {
+                t[0..4].copy_from_slice(&0x0003_0000u32.to_be_bytes());
+            }
+            disk.tables.insert(tag_from_str("post"), Rc::new(t));
+            Ok(())
+        }
         Surgery::InstallAvar { variant } => {
             let fvar = disk.tables.get(&tag_from_str("fvar")).ok_or("surgery: no fvar")?.clone();
             let axes = usize::from(be16(&fvar, 8).ok_or("surgery: short fvar")?);
